@@ -113,38 +113,59 @@ def execute(mod, kind, tape):
 
 
 def _worker_chunk(args):
+    """Execute a chunk of runs.  Returns (records, aggregate, extra): full records only for runs
+    that matter individually (violations, nondeterminism, harness errors, samples, payloads);
+    everything else is folded into the aggregate so that millions of runs stay cheap."""
     mod_name, kind, indices, verif_seed, recheck = args
     import importlib
     mod = importlib.import_module(mod_name)
     res = []
+    agg = {'n': 0, 'stats': collections.Counter(), 'probes': collections.Counter(), 'steps': 0,
+           'abs_nt': set(), 'abs_all': set(), 'inconclusive': 0, 'nontrivial': 0, 'rechecked': 0,
+           'first': []}
+    keep_payload = getattr(mod, 'PAYLOAD_KEEP', 0)
     for idx in indices:
         seed = run_seed_for(mod.PROPERTY, verif_seed, kind, idx)
         try:
             tape = Tape(seed, index=idx)
             out = execute(mod, kind, tape)
-            r = {
-                'kind': kind, 'index': idx, 'seed': seed,
-                'viol': [(v.clause, v.signature) for v in out.violations],
-                'digest': out.digest(),
-                'abs': hashlib.sha256(str(out.abstract).encode()).hexdigest()[:16],
-                'nontrivial': bool(out.nontrivial), 'inconclusive': bool(out.inconclusive),
-                'stats': dict(out.stats), 'probes': dict(out.probes), 'steps': out.steps,
-                'ntape': len(tape.rec),
-            }
+            h = int(hashlib.sha256(str(out.abstract).encode()).hexdigest()[:15], 16)
+            agg['n'] += 1
+            agg['stats'].update(out.stats)
+            agg['probes'].update(out.probes)
+            agg['steps'] += out.steps
+            agg['abs_all'].add(h)
+            if out.inconclusive:
+                agg['inconclusive'] += 1
+            if out.nontrivial:
+                agg['nontrivial'] += 1
+                if not out.inconclusive:
+                    agg['abs_nt'].add(h)
+            r = {'kind': kind, 'index': idx, 'seed': seed,
+                 'viol': [(v.clause, v.signature) for v in out.violations],
+                 'digest': out.digest()}
+            keep = False
             if out.violations:
                 r['tape'] = list(tape.rec)
-            if getattr(out, 'payload', None) is not None:
+                keep = True
+            if getattr(out, 'payload', None) is not None and idx < keep_payload:
                 r['payload'] = out.payload
+                keep = True
             if recheck and derive_seed(seed, 'recheck') % recheck == 0:
                 out2 = execute(mod, kind, Tape(replay=tape.rec, index=idx))
-                r['rechecked'] = True
+                agg['rechecked'] += 1
                 if out2.digest() != out.digest():
                     r['nondet'] = (out.digest(), out2.digest())
                     r['tape'] = list(tape.rec)
+                    keep = True
             if idx < 4 or (out.nontrivial and idx < 40):
                 r['sample'] = jsonable(out.sample) if out.sample is not None else None
                 r['trace_head'] = out.trace[:25]
-            res.append(r)
+                keep = True
+            if len(agg['first']) < 3:
+                agg['first'].append({'kind': kind, 'run_index': idx, 'run_seed': seed})
+            if keep:
+                res.append(r)
         except BaseException as e:  # harness error: never a violation
             if isinstance(e, (KeyboardInterrupt, SystemExit)):
                 raise
@@ -153,7 +174,7 @@ def _worker_chunk(args):
     extra = None
     if hasattr(mod, 'worker_extra'):
         extra = mod.worker_extra()
-    return res, extra
+    return res, agg, extra
 
 
 # ---------------------------------------------------------------------------------------------
@@ -240,6 +261,20 @@ def run_check(mod, tier, verif_seed, workers=None, budget_scale=None):
 
     results = []
     extras = []
+    total = {'n': 0, 'stats': collections.Counter(), 'probes': collections.Counter(), 'steps': 0,
+             'abs_nt': set(), 'abs_all': set(), 'inconclusive': 0, 'nontrivial': 0,
+             'rechecked': 0, 'first': []}
+
+    def fold(agg):
+        for k in ('n', 'steps', 'inconclusive', 'nontrivial', 'rechecked'):
+            total[k] += agg[k]
+        total['stats'].update(agg['stats'])
+        total['probes'].update(agg['probes'])
+        total['abs_nt'] |= agg['abs_nt']
+        total['abs_all'] |= agg['abs_all']
+        if len(total['first']) < 3:
+            total['first'].extend(agg['first'])
+
     harness_errors = []
     jobs = []
     recheck = getattr(mod, 'RECHECK', 50)
@@ -255,8 +290,9 @@ def run_check(mod, tier, verif_seed, workers=None, budget_scale=None):
     timed_out = False
     if workers <= 1:
         for j in jobs:
-            res, extra = _worker_chunk(j)
+            res, agg, extra = _worker_chunk(j)
             results.extend(res)
+            fold(agg)
             extras.append(extra)
     else:
         ex = cf.ProcessPoolExecutor(max_workers=workers, mp_context=ctx)
@@ -264,8 +300,9 @@ def run_check(mod, tier, verif_seed, workers=None, budget_scale=None):
         try:
             for f in cf.as_completed(futs, timeout=hard_timeout):
                 try:
-                    res, extra = f.result()
+                    res, agg, extra = f.result()
                     results.extend(res)
+                    fold(agg)
                     extras.append(extra)
                 except Exception:
                     harness_errors.append('worker died: ' + traceback.format_exc()[-1500:])
@@ -367,28 +404,24 @@ def run_check(mod, tier, verif_seed, workers=None, budget_scale=None):
 
     # ---- evidence
     wall = time.time() - t0
-    stats = collections.Counter()
-    probes = collections.Counter()
-    steps = 0
-    for r in ok:
-        stats.update(r['stats'])
-        probes.update(r['probes'])
-        steps += r['steps']
-    distinct = len({r['abs'] for r in ok if r['nontrivial'] and not r['inconclusive']})
-    distinct_all = len({r['abs'] for r in ok})
+    stats = total['stats']
+    probes = total['probes']
+    steps = total['steps']
+    n_runs = total['n']
+    distinct = len(total['abs_nt'])
+    distinct_all = len(total['abs_all'])
     samples = [{'kind': r['kind'], 'run_index': r['index'], 'run_seed': r['seed'],
                 'case': r.get('sample'), 'trace_head': r.get('trace_head')}
                for r in ok if r.get('sample') is not None][:5]
     if not samples:
-        samples = [{'kind': r['kind'], 'run_index': r['index'], 'run_seed': r['seed']}
-                   for r in ok[:3]]
+        samples = total['first'][:3]
     cov = {
-        'evaluations': len(ok) + int(post_info.get('evaluations', 0)),
+        'evaluations': n_runs + int(post_info.get('evaluations', 0)),
         'distinct_nontrivial': distinct + int(post_info.get('distinct_nontrivial', 0)),
         'rule': mod.RULE,
         'samples': samples + list(post_info.get('samples', []))[:3],
-        'simulated_runs': len(ok),
-        'runs_per_hour': int(len(ok) / max(wall, 1e-9) * 3600),
+        'simulated_runs': n_runs,
+        'runs_per_hour': int(n_runs / max(wall, 1e-9) * 3600),
         'seeds': {'verif_seed': verif_seed, 'run_seed_rule':
                   'sha256(verif|VERIF_SEED|property|kind|index)[:8]'},
         'sim_steps_total': steps,
@@ -397,9 +430,9 @@ def run_check(mod, tier, verif_seed, workers=None, budget_scale=None):
         'fault_counts': dict(stats),
         'probe_counts': dict(probes),
         'distinct_abstract_traces_all': distinct_all,
-        'inconclusive': sum(1 for r in ok if r['inconclusive']),
-        'nontrivial_runs': sum(1 for r in ok if r['nontrivial']),
-        'rechecked_for_determinism': sum(1 for r in ok if r.get('rechecked')),
+        'inconclusive': total['inconclusive'],
+        'nontrivial_runs': total['nontrivial'],
+        'rechecked_for_determinism': total['rechecked'],
         'nondeterministic_runs': len(nondet),
         'components': mod.COMPONENTS,
         'known_findings_seen': known_seen,
@@ -422,7 +455,7 @@ def run_check(mod, tier, verif_seed, workers=None, budget_scale=None):
 
     # ---- report
     print('%s tier=%s seed=%s runs=%d distinct_nontrivial=%d inconclusive=%d wall=%.1fs '
-          'runs/h=%d' % (prop, tier, verif_seed, len(ok), cov['distinct_nontrivial'],
+          'runs/h=%d' % (prop, tier, verif_seed, n_runs, cov['distinct_nontrivial'],
                          cov['inconclusive'], wall, cov['runs_per_hour']))
     print('  faults: %s' % dict(stats))
     print('  probes: %s' % dict(probes))
